@@ -438,7 +438,9 @@ Print Assumptions C02_single_call_variant.
    ev_decl D e            = the store e is held by the C type D declares for its name *)
 
 (* scripts with if / elif / else, while, for at any depth, then any number of passes of the main loop: on EVERY path, every value
-   ever stored into a name is held by the C type the sketch declares for it (a global, or a local of loop()) *)
+   ever stored into a name is held by the C type the sketch declares for it - a global: since the repair of
+   F-C05-looplocal-reinit / F-C01-loop-local-reinit a name first stored inside the main loop is a sketch global too
+   ([p_loop], the locals of loop(), is empty for every program: C02_no_loop_locals) *)
 Theorem C02_decl_covers_script_partial :
   forall C pre main ps orc orc1 rho tr ret,
     script_guard C pre main = true ->
@@ -448,13 +450,18 @@ Theorem C02_decl_covers_script_partial :
 Proof. exact script_covers. Qed.
 Print Assumptions C02_decl_covers_script_partial.
 
+(* for every item list (statements at column 0, defs, the main loop): no declaration is a local of loop() *)
+Theorem C02_no_loop_locals : forall C its ps, run_items C its = Some ps -> p_loop ps = [].
+Proof. exact run_items_no_loop_locals. Qed.
+Print Assumptions C02_no_loop_locals.
+
 (* a = 3 ; if ..: x = a * 2.5 else: x = 0.5 ; k = 0 ; while ..: y = x + k ; k = k + 1 ; for i in range(..): z = i * 2
    while True: r = a + 1 ; if ..: w = r * 0.5 *)
 Example C02_decl_covers_script_nonvacuous :
   script_guard None demo_pre demo_main = true /\
   (exists ps, run_items None (script_items demo_pre demo_main) = Some ps /\
-              p_globals ps = [(w_a, CInt); (w_x, CFloat); (w_k, CInt); (w_y, CFloat); (w_z, CInt)] /\
-              p_loop ps = [(w_r, CInt); (w_w, CFloat)]) /\
+              p_globals ps = [(w_a, CInt); (w_x, CFloat); (w_k, CInt); (w_y, CFloat); (w_z, CInt); (w_r, CInt); (w_w, CFloat)] /\
+              p_loop ps = []) /\
   (exists rho tr, exec_prog demo_oracle demo_pre demo_main = Ok ([], rho, tr, false) /\
                   In (TAssign w_y (VFloat (17 # 2))) tr /\ In (TAssign w_w (VFloat 2)) tr /\ In (TLoopVar w_i (VInt 1)) tr).
 Proof. exact demo_script_nonvacuous. Qed.
